@@ -22,7 +22,7 @@ func init() {
 }
 
 func runC14(r *report.Run) {
-	r.SetRule("race-detector build, child process per run: 16 query workers (cache on, every stamped query kind) x a reloader walking through generations (every other run with a 1 ms reload timeout so that reloads time out while still running; full reloads to new directories/files, partial reloads after a real ApplyDiff on the primary / file replacement, failing reloads: missing path, unreadable, missing validation key) x a ReportBackendStats ticker x a WatchDBAndReload watcher with a ReloadChan consumer x shutdown while queries are parked after reader acquisition (verif hook) and resumed afterwards; plus the production wiring (NewFBDNSDB with a 1 s periodic reload) shut down while a reload is parked in progress and the next tick is already pending; on CDB, RocksDB v1 and v2; repeated. Oracle: zero race-detector reports (deduplicated by entry-point pair), no panic/fatal error, every worker completes its fixed operation count before a generous watchdog; a stand-still of the progress counters (queries, reloads, stats reports) for 20 s is examined structurally: a deadlock is reported only when in three goroutine dumps 2 s apart every goroutine inside the serving code is blocked acquiring a sync lock (at least a waiting writer and a waiting reader) or idle, none runs or sits in a system/cgo call, and the blocked stacks are identical. non-trivial = run in which queries and reloads really overlapped (measured: queries completed while a reload was in progress); distinct by (backend, repeat)")
+	r.SetRule("race-detector build, child process per run: 16 query workers (cache on, every stamped query kind) x a reloader walking through generations (every other run with a 1 ms reload timeout so that reloads time out while still running; full reloads to new directories/files, partial reloads after a real ApplyDiff on the primary / file replacement, failing reloads: missing path, unreadable, missing validation key) x a ReportBackendStats ticker x a WatchDBAndReload watcher with a ReloadChan consumer x (in part of the runs) a WatchControlDirAndReload watcher through which the successful reloads are requested by renaming reload/switchdb files into the control directory x shutdown while queries are parked after reader acquisition (verif hook) and resumed afterwards; plus the production wiring (NewFBDNSDB with a 1 s periodic reload) shut down while a reload is parked in progress and the next tick is already pending; on CDB, RocksDB v1 and v2; repeated. Oracle: zero race-detector reports (deduplicated by entry-point pair), no panic/fatal error, every worker completes its fixed operation count before a generous watchdog; a stand-still of the progress counters (queries, reloads, stats reports) for 20 s is examined structurally: a deadlock is reported only when in three goroutine dumps 2 s apart every goroutine inside the serving code is blocked acquiring a sync lock (at least a waiting writer and a waiting reader) or idle, none runs or sits in a system/cgo call, and the blocked stacks are identical. non-trivial = run in which queries and reloads really overlapped (measured: queries completed while a reload was in progress); distinct by (backend, repeat)")
 	r.Assume("GORACE=halt_on_error=0 with log files; reports are counted from the logs, never from exit codes; a watchdog firing without a crash is inconclusive")
 	repeats := r.Pick(2, 5)
 	gens := r.Pick(25, 120)
@@ -48,7 +48,12 @@ func runC14(r *report.Run) {
 				if rep%2 == 1 {
 					tmo = "1ms"
 				}
-				res, err := runChild(true, "c14", []string{b.Name, fmt.Sprint(r.Seed*100 + int64(rep)), fmt.Sprint(gens), tmo}, 25*time.Minute)
+				// runs without the short timeout request their successful reloads through the control directory on every other backend/repeat
+				via := "direct"
+				if tmo == "0" && (rep/2+len(b.Name)+int(r.Seed))%2 == 0 {
+					via = "ctrl"
+				}
+				res, err := runChild(true, "c14", []string{b.Name, fmt.Sprint(r.Seed*100 + int64(rep)), fmt.Sprint(gens), tmo, via}, 25*time.Minute)
 				mu.Lock()
 				outs = append(outs, out{b, rep, res, err})
 				mu.Unlock()
@@ -82,7 +87,7 @@ func runC14(r *report.Run) {
 			r.Violation("", fmt.Sprintf("%s run %d: process died (exit %d) at step %q:\n%s", o.b.Name, o.rep, res.ExitCode, last, firstLines(res.Stderr, 14)), map[string]interface{}{"backend": o.b.Name, "journal_last": last})
 			continue
 		}
-		for _, k := range []string{"reload_timeouts", "queries", "reloads", "queries_during_reload", "stats_reports", "parked_at_shutdown", "watcher_reloads"} {
+		for _, k := range []string{"reload_timeouts", "queries", "reloads", "queries_during_reload", "stats_reports", "parked_at_shutdown", "watcher_reloads", "control_file_reloads", "control_files_not_consumed"} {
 			if n, ok := res.Summary[k].(float64); ok {
 				r.Count(k, int64(n))
 			}
@@ -145,6 +150,11 @@ func c14Worker(args []string) int {
 	opt := harness.ServerOpts{Cache: true}
 	if len(args) > 3 && args[3] != "0" {
 		opt.ReloadTimeout, _ = time.ParseDuration(args[3])
+	}
+	ctrl := ""
+	if len(args) > 4 && args[4] == "ctrl" {
+		ctrl = harness.NewDir("ctrl-" + b.Name)
+		opt.ControlPath = ctrl
 	}
 	l, err := newLab(b, opt, 5000)
 	if err != nil {
@@ -223,16 +233,29 @@ func c14Worker(args []string) int {
 		}
 	}()
 	go h.WatchDBAndReload()
+	if ctrl != "" {
+		// the operator's way in: successful reloads of this run are requested through control files
+		go h.WatchControlDirAndReload()
+		time.Sleep(50 * time.Millisecond) // let the watcher register the directory
+		l.viaControl = ctrl
+	}
 	kinds := []string{"full-ok", "partial-ok", "partial-ok", "full-missing-path", "full-novalidation", "full-unreadable", "full-ok"}
-	nreload := 0
+	nreload, ctrlReloads, ctrlStuck := 0, 0, 0
 	for g := 0; g < gens; g++ {
 		k := kinds[rng.Intn(len(kinds))]
 		journal("%s reload %d %s", bname, g, k)
 		atomic.AddInt32(&reloading, 1)
-		_, _, err := l.reload(k)
+		ok, _, err := l.reload(k)
 		atomic.AddInt32(&reloading, -1)
 		if err != nil {
 			fmt.Println("prepare:", err)
+		}
+		if l.viaControl != "" && (k == "full-ok" || k == "partial-ok") {
+			if ok {
+				ctrlReloads++
+			} else {
+				ctrlStuck++
+			}
 		}
 		nreload++
 		atomic.AddInt64(&reloadSteps, 1)
@@ -279,7 +302,7 @@ func c14Worker(args []string) int {
 	fp, _ := firstPanic.Load().(string)
 	summary(map[string]interface{}{"queries": atomic.LoadInt64(&queries), "reloads": nreload, "queries_during_reload": atomic.LoadInt64(&during),
 		"stats_reports": atomic.LoadInt64(&statsReports), "reload_timeouts": timeouts, "parked_at_shutdown": parked, "watcher_reloads": atomic.LoadInt64(&watcherReloads),
-		"panics": atomic.LoadInt64(&panics), "first_panic": fp})
+		"panics": atomic.LoadInt64(&panics), "first_panic": fp, "control_file_reloads": ctrlReloads, "control_files_not_consumed": ctrlStuck})
 	return 0
 }
 
